@@ -50,6 +50,8 @@ const SIZES: [usize; 6] = [1, 60, 120, 200, 700, 3000];
 const N_SIZES: u8 = SIZES.len() as u8;
 const MAX_DELTA_COUNT: usize = 10;
 const MAX_POINTS: usize = 400;
+/// failure class shared with C25's finding `C25/modified-copy-reused-after-failed-update`
+const WHAT_REUSE: &str = "modified-copy-reused-after-failed-update";
 
 /// (uri index, Some(content index) = publish/update | None = withdraw)
 pub type Change = (u8, Option<u8>);
@@ -118,6 +120,9 @@ pub enum Fault {
     DFirst404S500,
     /// last needed delta cut and snapshot 500: the whole update fails after deltas were applied in place
     DLastCutS500,
+    /// NOT honest, never generated: a lagging cache still serves the notification of v1 (directed probe of the
+    /// relation to C25's modified-copy finding only)
+    NStaleV1,
 }
 
 impl Fault {
@@ -132,6 +137,7 @@ impl Fault {
             Fault::DLastCut => "Dlastcut",
             Fault::DFirst404S500 => "Dfirst404+S500",
             Fault::DLastCutS500 => "Dlastcut+S500",
+            Fault::NStaleV1 => "stale-notification-of-v1",
         }
     }
 }
@@ -168,6 +174,9 @@ fn follow_names(f: &[Follow]) -> String {
 pub struct Case {
     pub sc: Scenario,
     pub k: u32,
+    /// kill point of a second victim run on the copy the first crash left (0 = no second victim)
+    #[serde(default)]
+    pub k2: u32,
     pub follow: Vec<Follow>,
 }
 
@@ -429,7 +438,7 @@ fn diff(want: &BTreeMap<String, Bytes>, got: &BTreeMap<String, Bytes>) -> String
 
 /// The success clause of the statement: the update reported success ⇒ local copy == server's objects at the
 /// notified (session, serial), state names it, `load_object` agrees. Returns (what, message) on a breach.
-fn judge_updated(out: &UpdateOut, insp: &Inspect, server: &RrdpServer) -> Option<(&'static str, String)> {
+fn judge_updated(out: &UpdateOut, insp: &Inspect, server: &Ver) -> Option<(&'static str, String)> {
     let want = &server.objects;
     if !insp.exists {
         return Some(("success-without-archive", "update reported successful but there is no archive file".into()));
@@ -460,6 +469,18 @@ fn judge_updated(out: &UpdateOut, insp: &Inspect, server: &RrdpServer) -> Option
     None
 }
 
+/// A published version: what a notification names and the objects the server held then.
+#[derive(Clone, Debug)]
+pub struct Ver {
+    session: Uuid,
+    serial: u64,
+    objects: BTreeMap<String, Bytes>,
+}
+
+fn ver(server: &RrdpServer) -> Ver {
+    Ver { session: server.session, serial: server.serial, objects: server.objects.clone() }
+}
+
 //------------------------------------------------------------------------------------------
 // Pre-state and kill-point trace of a scenario
 
@@ -468,6 +489,8 @@ pub struct Template {
     archive: Vec<u8>,
     v1: (Uuid, u64),
     v1_objects: BTreeMap<String, Bytes>,
+    /// the notification file of v1 (what a lagging cache would still serve)
+    v1_notification: Vec<u8>,
     /// labels of the kill points 1..=M of the uninterrupted victim run
     labels: Vec<String>,
     /// how the client reached v1 ("delta" expected)
@@ -546,7 +569,7 @@ pub fn build_template(sc: &Scenario) -> Result<Template, Verdict> {
     if out.result != "updated" {
         return Err(Verdict::Dropped(format!("prestate_v0_not_updated:{}", out.result)));
     }
-    if let Some((what, msg)) = judge_updated(&out, &inspect(&apath, dir.path()), &server) {
+    if let Some((what, msg)) = judge_updated(&out, &inspect(&apath, dir.path()), &ver(&server)) {
         return Err(Verdict::fail(fail_key(what, sc, "none(pre-state v0 by snapshot)", &[]), msg));
     }
     // v1 by deltas
@@ -558,24 +581,30 @@ pub fn build_template(sc: &Scenario) -> Result<Template, Verdict> {
     if out.result != "updated" {
         return Err(Verdict::Dropped(format!("prestate_v1_not_updated:{}", out.result)));
     }
-    if let Some((what, msg)) = judge_updated(&out, &inspect(&apath, dir.path()), &server) {
+    if let Some((what, msg)) = judge_updated(&out, &inspect(&apath, dir.path()), &ver(&server)) {
         return Err(Verdict::fail(fail_key(what, sc, "none(pre-state v1 by deltas)", &[]), msg));
     }
     let v1_path = if log.iter().any(|r| r.path.ends_with("/snapshot.xml")) { "snapshot" } else { "delta" };
     let archive = std::fs::read(&apath).map_err(|e| Verdict::Dropped(format!("prestate_unreadable:{}", e)))?;
     let v1 = (server.session, server.serial);
     let v1_objects = server.objects.clone();
+    let v1_notification = server.notification_xml();
     // pass 0: uninterrupted victim, traced
     to_v2(&mut server, sc);
     install(&srv, &server, sc.etag);
     let v = run_victim(dir.path(), srv.port(), &notify, 0)?;
-    Ok(Template { archive, v1, v1_objects, labels: v.labels, v1_path })
+    Ok(Template { archive, v1, v1_objects, v1_notification, labels: v.labels, v1_path })
 }
 
 //------------------------------------------------------------------------------------------
 // One case
 
 fn run_case_with(case: &Case, tpl: &Template, info: &mut CaseInfo) -> Verdict {
+    run_case_inner(case, tpl, info, None)
+}
+
+/// `second_trace`: run a second, uninterrupted victim after the first crash and hand back its kill-point labels.
+fn run_case_inner(case: &Case, tpl: &Template, info: &mut CaseInfo, second_trace: Option<&mut Vec<String>>) -> Verdict {
     let sc = &case.sc;
     let dir = tempfile::Builder::new().prefix("c24-").tempdir_in(scratch_base()).expect("tmp");
     let srv = HttpsServer::start();
@@ -651,8 +680,38 @@ fn run_case_with(case: &Case, tpl: &Template, info: &mut CaseInfo) -> Verdict {
     if let Some(out) = &victim.out {
         info.class(format!("victim:{}", out.result));
         if out.result == "updated" {
-            if let Some((what, msg)) = judge_updated(out, &post, &server) {
+            if let Some((what, msg)) = judge_updated(out, &post, &ver(&server)) {
                 return Verdict::fail(fail_key(what, sc, &label, &[]), format!("uninterrupted victim update v1→v2: {}", msg));
+            }
+        }
+    }
+
+    // --- a second victim on the copy the first crash left (same server version)
+    let mut label = label;
+    if case.k > 0 && (case.k2 > 0 || second_trace.is_some()) {
+        let k2 = if second_trace.is_some() { 0 } else { case.k2 };
+        let v2nd = match run_victim(dir.path(), srv.port(), &notify, k2) {
+            Ok(v) => v,
+            Err(v) => return v,
+        };
+        let _ = srv.take_log();
+        if let Some(t) = second_trace {
+            *t = v2nd.labels.clone();
+        }
+        if k2 > 0 {
+            if v2nd.labels.len() != k2 as usize {
+                return Verdict::Dropped("kill_trace_length_mismatch".into());
+            }
+            let l2 = v2nd.labels.last().cloned().unwrap_or_else(|| "unknown".to_string());
+            info.class(format!("kill2:{}", l2));
+            label = format!("{}+{}", label, l2);
+        }
+        if let Some(out) = &v2nd.out {
+            info.class(format!("second-victim:{}", out.result));
+            if out.result == "updated" {
+                if let Some((what, msg)) = judge_updated(out, &inspect(&apath, dir.path()), &ver(&server)) {
+                    return Verdict::fail(fail_key(what, sc, &label, &[]), format!("kill point {} ({}), copy left by the crash: {}; uninterrupted second update: {}", case.k, label, post_class, msg));
+                }
             }
         }
     }
@@ -670,6 +729,7 @@ fn run_case_with(case: &Case, tpl: &Template, info: &mut CaseInfo) -> Verdict {
             _ => Vec::new(),
         };
         let mut inert = false;
+        let mut expect = ver(&server);
         let snap = server.snapshot_xml();
         let cut_delta = |serial: u64| {
             if let Some(body) = server.delta_xml(serial) {
@@ -695,6 +755,17 @@ fn run_case_with(case: &Case, tpl: &Template, info: &mut CaseInfo) -> Verdict {
                 if step.fault == Fault::DFirst404S500 {
                     srv.set(HOST, &server.snapshot_path(), Resp::status(500));
                 }
+            }
+            Fault::NStaleV1 => {
+                let body = tpl.v1_notification.clone();
+                let r = if sc.etag {
+                    let tag = format!("\"{}\"", &sha256_hex(&body)[..16]);
+                    Resp::ok(body).etag(&tag).conditional()
+                } else {
+                    Resp::ok(body)
+                };
+                srv.set(HOST, &server.notify_path(), r);
+                expect = Ver { session: tpl.v1.0, serial: tpl.v1.1, objects: tpl.v1_objects.clone() };
             }
             Fault::DLastCut | Fault::DLastCutS500 => {
                 match needed.last() {
@@ -722,7 +793,9 @@ fn run_case_with(case: &Case, tpl: &Template, info: &mut CaseInfo) -> Verdict {
         info.class(format!("follow:{}", step.name()));
         match out.result.as_str() {
             "updated" => {
-                if let Some((what, msg)) = judge_updated(&out, &after, &server) {
+                if let Some((what, msg)) = judge_updated(&out, &after, &expect) {
+                    // a stale notification re-validating the copy a crash modified: C25's root cause, reached by a crash
+                    let what = if step.fault == Fault::NStaleV1 && what == "success-with-divergent-content" { WHAT_REUSE } else { what };
                     return Verdict::fail(
                         fail_key(what, sc, &label, done),
                         format!(
@@ -1003,9 +1076,218 @@ fn what_of(key: &str) -> String {
     key.split('/').nth(1).unwrap_or("").to_string()
 }
 
+/// Hand-written scenarios that pin the storage paths the generated ones reach only by chance: publish appended
+/// at the end of the file then withdrawn (truncation), re-allocation into an exactly fitting freed block,
+/// growth of the state record across a page class (delete + re-publish of `state`).
+fn directed_gens() -> Vec<(String, Gen)> {
+    let plans = vec![
+        vec![Follow { adv: Advance::Same, fault: Fault::None }],
+        vec![Follow { adv: Advance::Same, fault: Fault::DLastCutS500 }, Follow { adv: Advance::Same, fault: Fault::None }],
+        vec![Follow { adv: Advance::Deltas(vec![vec![(1, Some(0)), (4, None)]]), fault: Fault::None }],
+        vec![Follow { adv: Advance::Same, fault: Fault::S500 }, Follow { adv: Advance::Deltas(vec![vec![(2, Some(1))]]), fault: Fault::DFirst404 }, Follow { adv: Advance::Same, fault: Fault::None }],
+        vec![Follow { adv: Advance::NewSession(Some(vec![(3, Some(2))])), fault: Fault::SCut }, Follow { adv: Advance::Same, fault: Fault::None }],
+        vec![Follow { adv: Advance::Withheld(vec![(5, None)]), fault: Fault::None }],
+    ];
+    let truncate = Scenario {
+        seed: 0x00c2_4001,
+        kind: Kind::MultiDelta,
+        etag: true,
+        v0: vec![(0, 0), (1, 1), (2, 3), (3, 4), (4, 2)],
+        v1: vec![vec![(0, Some(1))], vec![(5, Some(3))]],
+        v2: vec![vec![(6, Some(4)), (1, Some(2))], vec![(6, None), (2, Some(5))], vec![(7, Some(3)), (3, None)], vec![(7, Some(5)), (0, Some(0))]],
+    };
+    let state_growth = Scenario {
+        seed: 0x00c2_4002,
+        kind: Kind::MultiDelta,
+        etag: false,
+        v0: vec![(0, 1), (1, 2), (2, 0)],
+        v1: vec![vec![(3, Some(1))]],
+        v2: vec![vec![(0, Some(2))], vec![(4, Some(3))], vec![(1, None)], vec![(2, Some(1))], vec![(5, Some(0))], vec![(0, Some(0))], vec![(3, Some(4))]],
+    };
+    vec![("directed-truncate".to_string(), Gen { sc: truncate, plans: plans.clone(), sample_seed: 1 }), ("directed-state-growth".to_string(), Gen { sc: state_growth, plans, sample_seed: 2 })]
+}
+
+struct Drive {
+    workers: usize,
+    all_points: bool,
+    scen_meta: Vec<serde_json::Value>,
+    label_hist: BTreeMap<String, u64>,
+    reported: BTreeSet<String>,
+}
+
+/// Records the verdicts of one batch; unknown failures are shrunk and reported once per shape.
+fn absorb(ctx: &Ctx, rep: &mut Report, d: &mut Drive, tpl: &Template, sub: &str, cases: &[Case], results: Vec<(CaseInfo, Verdict)>) {
+    for (case, (info, verdict)) in cases.iter().zip(results) {
+        let tagged = Tagged { sub: sub.to_string(), case: case.clone() };
+        match verdict {
+            Verdict::Fail { key, msg } => {
+                count_case(rep, &tagged, &info);
+                if !ctx.strict && ctx.known_key(&key).is_some() {
+                    rep.failure(ctx, &tagged, &key, &msg);
+                    continue;
+                }
+                // one report per failing shape (what + kind + kill label), shrunk
+                let shape = key.rsplit_once("/follow=").map(|x| x.0.to_string()).unwrap_or(key.clone());
+                if d.reported.insert(shape) && d.reported.len() <= 5 {
+                    let (small, k2, m2) = shrink(case, tpl, &what_of(&key));
+                    let (k2, m2) = if k2 == "unstable" { (key.clone(), msg.clone()) } else { (k2, m2) };
+                    let tagged = Tagged { sub: sub.to_string(), case: small };
+                    rep.failure(ctx, &tagged, &k2, &m2);
+                }
+            }
+            other => rep.record(ctx, &tagged, &info, &other),
+        }
+    }
+}
+
+const POST_CLASSES: [&str; 7] = ["partly-changed-under-v1-state", "state-unreadable", "v2-objects-under-v1-state", "objects-unreadable", "no-archive", "v2-complete", "v1-intact"];
+/// classes of copy left behind that get a second-crash pass (v1-intact would repeat the first pass)
+const SECOND_ALL: [&str; 6] = ["partly-changed-under-v1-state", "state-unreadable", "v2-objects-under-v1-state", "objects-unreadable", "no-archive", "v2-complete"];
+
+/// Enumerates the kill points of one scenario. Returns false when the campaign is to stop (violation).
+fn enumerate(ctx: &Ctx, rep: &mut Report, d: &mut Drive, name: &str, si: usize, g: &Gen, reps: usize, second_classes: &[&str], related: bool) -> bool {
+    let tpl = match build_template(&g.sc) {
+        Ok(t) => t,
+        Err(Verdict::Fail { key, msg }) => {
+            let tagged = Tagged { sub: "uninterrupted".to_string(), case: Case { sc: g.sc.clone(), k: 0, k2: 0, follow: vec![] } };
+            count_case(rep, &tagged, &CaseInfo::default());
+            rep.failure(ctx, &tagged, &key, &msg);
+            return false;
+        }
+        Err(Verdict::Dropped(why)) => {
+            *rep.dropped.entry(format!("template:{}", why)).or_default() += 1;
+            return true;
+        }
+        Err(Verdict::Pass) => unreachable!(),
+    };
+    let m = tpl.labels.len();
+    if m == 0 {
+        *rep.dropped.entry("template:no_kill_points_traced".to_string()).or_default() += 1;
+        return true;
+    }
+    for l in &tpl.labels {
+        *d.label_hist.entry(l.clone()).or_default() += 1;
+    }
+    let (points, complete) = select_points(&tpl.labels, g.sample_seed);
+    d.all_points &= complete;
+    let mut cases: Vec<Case> = Vec::new();
+    // k = 0: the uninterrupted update followed by each plan once
+    for p in &g.plans {
+        cases.push(Case { sc: g.sc.clone(), k: 0, k2: 0, follow: p.clone() });
+    }
+    for (pi, k) in points.iter().enumerate() {
+        for j in 0..reps {
+            let plan = &g.plans[(pi * reps + j + si) % g.plans.len()];
+            cases.push(Case { sc: g.sc.clone(), k: *k, k2: 0, follow: plan.clone() });
+        }
+    }
+    let workers = d.workers;
+    let results: Vec<(CaseInfo, Verdict)> = parallel_map(cases.len(), workers, |i| {
+        let mut info = CaseInfo::default();
+        let v = run_case_with(&cases[i], &tpl, &mut info);
+        (info, v)
+    });
+    // first kill point per class of copy left behind (for the second-crash pass and the related probe)
+    let mut first_of: BTreeMap<&'static str, u32> = BTreeMap::new();
+    let mut first_nt: Option<u32> = None;
+    for (case, (info, _)) in cases.iter().zip(results.iter()) {
+        if case.k == 0 {
+            continue;
+        }
+        for pc in POST_CLASSES {
+            if info.classes.iter().any(|c| c == &format!("postkill:{}", pc)) {
+                first_of.entry(pc).or_insert(case.k);
+            }
+        }
+        if info.nontrivial && first_nt.is_none() {
+            first_nt = Some(case.k);
+        }
+    }
+    let n_single = cases.len();
+    absorb(ctx, rep, d, &tpl, "enumeration", &cases, results);
+    let mut meta = serde_json::json!({"scenario": name, "kind": g.sc.kind.name(), "etag": g.sc.etag, "kill_points": m, "points_run": points.len(), "all_points": complete, "cases": n_single, "v1_reached_by": tpl.v1_path, "v2_deltas": g.sc.v2.len()});
+    if rep.violated() {
+        d.scen_meta.push(meta);
+        return false;
+    }
+
+    // --- second crash: a second victim is killed at every point of its update on the copy the first crash left
+    let mut second = Vec::new();
+    for pc in second_classes.iter().filter(|pc| first_of.contains_key(*pc)) {
+        let k1 = first_of[pc];
+        let mut labels2 = Vec::new();
+        let mut info = CaseInfo::default();
+        let probe = Case { sc: g.sc.clone(), k: k1, k2: 0, follow: vec![] };
+        match run_case_inner(&probe, &tpl, &mut info, Some(&mut labels2)) {
+            Verdict::Pass => {}
+            Verdict::Dropped(why) => {
+                *rep.dropped.entry(format!("second-trace:{}", why)).or_default() += 1;
+                continue;
+            }
+            Verdict::Fail { key, msg } => {
+                let tagged = Tagged { sub: "second-crash".to_string(), case: probe };
+                count_case(rep, &tagged, &info);
+                rep.failure(ctx, &tagged, &key, &msg);
+                d.scen_meta.push(meta);
+                return false;
+            }
+        }
+        for l in &labels2 {
+            *d.label_hist.entry(l.clone()).or_default() += 1;
+        }
+        let (points2, complete2) = select_points(&labels2, g.sample_seed ^ k1 as u64);
+        d.all_points &= complete2;
+        let cases2: Vec<Case> = points2.iter().enumerate().map(|(pi, k2)| Case { sc: g.sc.clone(), k: k1, k2: *k2, follow: g.plans[(pi + si) % g.plans.len()].clone() }).collect();
+        let results2: Vec<(CaseInfo, Verdict)> = parallel_map(cases2.len(), workers, |i| {
+            let mut info = CaseInfo::default();
+            let v = run_case_with(&cases2[i], &tpl, &mut info);
+            (info, v)
+        });
+        second.push(serde_json::json!({"first_kill": k1, "copy_left": pc, "kill_points_of_second_update": labels2.len(), "points_run": points2.len()}));
+        absorb(ctx, rep, d, &tpl, "second-crash", &cases2, results2);
+        if rep.violated() {
+            break;
+        }
+    }
+    if !second.is_empty() {
+        meta["second_crash"] = serde_json::json!(second);
+    }
+    d.scen_meta.push(meta);
+    if rep.violated() {
+        return false;
+    }
+
+    // --- relation to C25's finding: the copy a crash leaves is the copy a failed delta update leaves
+    if related {
+        if let Some(k) = first_nt {
+            let case = Case { sc: g.sc.clone(), k, k2: 0, follow: vec![Follow { adv: Advance::Same, fault: Fault::NStaleV1 }] };
+            let mut info = CaseInfo::default();
+            let v = run_case_with(&case, &tpl, &mut info);
+            let tagged = Tagged { sub: "related-stale-notification".to_string(), case: case.clone() };
+            match v {
+                Verdict::Fail { key, msg } => {
+                    count_case(rep, &tagged, &info);
+                    let same_root = key.starts_with(&format!("C24/{}/", WHAT_REUSE));
+                    if !ctx.strict && ctx.known_key(&key).is_none() && same_root && is_listed_known("C25", crate::c25::KEY_REUSE) {
+                        println!("RELATED-KNOWN-FINDING: property=C25 key={} reproduced through a crash by C24 as {} :: {}", crate::c25::KEY_REUSE, key, truncate(&msg, 600));
+                        rep.extra.insert("related_known_finding".into(), serde_json::json!({"property": "C25", "key": crate::c25::KEY_REUSE, "seen_as": key, "reproduced": true, "note": "the continuation is a stale notification (not an honest further version), so this is outside C24's quantifier while C25 lists the root cause; judged as a C24 failure once C25's entry is no longer listed"}));
+                    } else {
+                        rep.failure(ctx, &tagged, &key, &msg);
+                    }
+                }
+                other => {
+                    rep.record(ctx, &tagged, &info, &other);
+                    rep.extra.insert("related_known_finding".into(), serde_json::json!({"property": "C25", "key": crate::c25::KEY_REUSE, "reproduced": false}));
+                }
+            }
+        }
+    }
+    !rep.violated()
+}
+
 pub fn run(ctx: &Ctx, rep: &mut Report, replay: Option<&serde_json::Value>) {
     rep.level = "fault_enumeration".into();
-    rep.rule("per generated scenario (publisher history v0→v1→v2 over 8 URIs x 6 content sizes, kinds snapshot-only / single multi-element delta / 2-4 deltas / delta then new session; pre-state = routinator's own copy at v1 made by snapshot + delta update) pass 0 traces the M kill points (verif::kill_point: every partial write of an archive object or index entry, truncation, finalize of the snapshot archive, remove/rename of the snapshot swap, deletion of a corrupt archive) of the client update v1→v2 performed by a child process; the child is then re-run from a copy of the same pre-state and abort()ed at point k for every k in 0..=M (M > 400: first/last 20, every label change, seeded sample), each k with 2 follow-up plans (quick) of 1-3 further in-process updates against the honest server (same version / more deltas / deltas withheld / new session; earlier updates optionally meet notification 500/cut, snapshot 500/cut, first delta 404, last delta cut, delta+snapshot failing; ETag with truthful 304 in half of the scenarios); oracle on every update that hands out an RRDP repository: archive objects (routinator's reader on a copy of the file) == server objects at the notified session+serial byte for byte, state record names them, load_object agrees for all 8 URIs; Ok(None)/failed run = not updated; non-trivial = killed at an archive.storage.* point of a delta-path update that had fetched >= 1 delta, the copy left behind still carries the v1 state record and its objects differ from v1 (or are unreadable); distinct by (scenario, k, follow-up plan)");
+    rep.rule("per scenario (publisher history v0→v1→v2 over 8 URIs x 6 content sizes; generated kinds snapshot-only / single multi-element delta / 2-4 deltas / delta then new session, plus 2 hand-written multi-delta scenarios pinning end-of-file truncation, exact-fit reuse of freed blocks and re-allocation of the state record; pre-state = routinator's own copy at v1 made by snapshot + delta update) pass 0 traces the M kill points (verif::kill_point: every partial write of an archive object or index entry, truncation, finalize of the snapshot archive, remove/rename of the snapshot swap, deletion of a corrupt archive) of the client update v1→v2 performed by a child process; the child is re-run from a copy of the same pre-state and abort()ed at point k for every k in 0..=M (M > 400: first/last 20, every label change, seeded sample), each k with 2 follow-up plans (quick: 1 for the generated scenarios) of 1-3 further in-process updates against the honest server (same version / more deltas / deltas withheld / new session; earlier updates optionally meet notification 500/cut, snapshot 500/cut, first delta 404, last delta cut, delta+snapshot failing; ETag with truthful 304 in about half of the scenarios); second-crash pass: for the first kill point of each class of copy left behind (quick: 2 classes of each hand-written scenario; thorough: all classes of the hand-written and of 3 generated scenarios per kind) a second victim update is traced and killed at every one of its points, followed by one plan; oracle on every update that hands out an RRDP repository: archive objects (routinator's reader on a copy of the file) == server objects at the notified session+serial byte for byte, state record names them, load_object agrees for all 8 URIs; Ok(None)/failed run = not updated; non-trivial = killed at an archive.storage.* point of a delta-path update that had fetched >= 1 delta, the copy left behind still carries the v1 state record and its objects differ from v1 (or are unreadable); distinct by (scenario, k, k2, follow-up plan)");
     rep.assume("abort() at a hook point stands for SIGKILL: writes already issued (incl. stores into the MAP_SHARED mapping) survive in the page cache, nothing else does; power-loss reordering / lost page-cache contents are out of scope; kill points have the granularity of routinator's own write calls (one header field, name, meta, data, padding per call), a kill inside one memcpy is not modelled");
     rep.assume("the publisher model (httpsrv::RrdpServer) renders RFC 8182 files as rpki::rrdp parses them and is honest after the crash: serials only grow within a session, 304 only for the ETag of the notification currently served, every served file matches its listed hash; transient faults are plain HTTP errors or cut connections");
     rep.assume("'not updated' is observed as Run::repository == Ok(None) (rsync disabled) or a failed run; the statement has no liveness clause, so updates that stay unsuccessful are counted (classes run:clean-follow-up-*) but are not violations; Archive::verify failing on a copy whose content is correct is counted, not judged");
@@ -1015,86 +1297,36 @@ pub fn run(ctx: &Ctx, rep: &mut Report, replay: Option<&serde_json::Value>) {
         return;
     }
     let per_kind = ctx.tier.pick(1usize, 10usize);
-    let reps = ctx.tier.pick(2usize, 2usize);
-    let workers = 12usize;
-    let mut all_points = true;
-    let mut scen_meta = Vec::new();
-    let mut label_hist: BTreeMap<String, u64> = BTreeMap::new();
-    let mut reported: BTreeSet<String> = BTreeSet::new();
+    let mut d = Drive { workers: 12, all_points: true, scen_meta: Vec::new(), label_hist: BTreeMap::new(), reported: BTreeSet::new() };
+    let mut go = true;
+    // hand-written scenarios first: the first one also carries the second-crash pass of the quick tier and the related probe
+    for (i, (name, g)) in directed_gens().iter().enumerate() {
+        if !go {
+            break;
+        }
+        let second: &[&str] = match (ctx.tier, i) {
+            (Tier::Quick, 0) => &["partly-changed-under-v1-state", "v2-complete"],
+            (Tier::Quick, _) => &["state-unreadable", "v2-objects-under-v1-state"],
+            _ => &SECOND_ALL,
+        };
+        go = enumerate(ctx, rep, &mut d, name, i, g, 2, second, i == 0);
+    }
     'outer: for kind in KINDS {
+        if !go {
+            break;
+        }
         let gens = sample_strategy(&gen_strategy(kind), ctx.seed_for(&format!("scenarios/{}", kind.name())), per_kind);
         for (si, g) in gens.iter().enumerate() {
-            let tpl = match build_template(&g.sc) {
-                Ok(t) => t,
-                Err(Verdict::Fail { key, msg }) => {
-                    let tagged = Tagged { sub: "uninterrupted".to_string(), case: Case { sc: g.sc.clone(), k: 0, follow: vec![] } };
-                    count_case(rep, &tagged, &CaseInfo::default());
-                    rep.failure(ctx, &tagged, &key, &msg);
-                    break 'outer;
-                }
-                Err(Verdict::Dropped(why)) => {
-                    *rep.dropped.entry(format!("template:{}", why)).or_default() += 1;
-                    continue;
-                }
-                Err(Verdict::Pass) => unreachable!(),
-            };
-            let m = tpl.labels.len();
-            if m == 0 {
-                *rep.dropped.entry("template:no_kill_points_traced".to_string()).or_default() += 1;
-                continue;
-            }
-            for l in &tpl.labels {
-                *label_hist.entry(l.clone()).or_default() += 1;
-            }
-            let (points, complete) = select_points(&tpl.labels, g.sample_seed);
-            all_points &= complete;
-            let mut cases: Vec<Case> = Vec::new();
-            // k = 0: the uninterrupted update followed by each plan once
-            for p in &g.plans {
-                cases.push(Case { sc: g.sc.clone(), k: 0, follow: p.clone() });
-            }
-            for (pi, k) in points.iter().enumerate() {
-                for j in 0..reps {
-                    let plan = &g.plans[(pi * reps + j + si) % g.plans.len()];
-                    cases.push(Case { sc: g.sc.clone(), k: *k, follow: plan.clone() });
-                }
-            }
-            scen_meta.push(serde_json::json!({"kind": kind.name(), "etag": g.sc.etag, "kill_points": m, "points_run": points.len(), "all_points": complete, "cases": cases.len(), "v1_reached_by": tpl.v1_path, "v2_deltas": g.sc.v2.len()}));
-            let results: Vec<(CaseInfo, Verdict)> = parallel_map(cases.len(), workers, |i| {
-                let mut info = CaseInfo::default();
-                let v = run_case_with(&cases[i], &tpl, &mut info);
-                (info, v)
-            });
-            for (case, (info, verdict)) in cases.iter().zip(results) {
-                let tagged = Tagged { sub: "enumeration".to_string(), case: case.clone() };
-                match verdict {
-                    Verdict::Fail { key, msg } => {
-                        count_case(rep, &tagged, &info);
-                        if !ctx.strict && ctx.known_key(&key).is_some() {
-                            rep.failure(ctx, &tagged, &key, &msg);
-                            continue;
-                        }
-                        // one report per failing shape (what + kind + kill label), shrunk
-                        let shape = key.rsplit_once("/follow=").map(|x| x.0.to_string()).unwrap_or(key.clone());
-                        if reported.insert(shape) && reported.len() <= 5 {
-                            let (small, k2, m2) = shrink(case, &tpl, &what_of(&key));
-                            let (k2, m2) = if k2 == "unstable" { (key.clone(), msg.clone()) } else { (k2, m2) };
-                            let tagged = Tagged { sub: "enumeration".to_string(), case: small };
-                            rep.failure(ctx, &tagged, &k2, &m2);
-                        }
-                    }
-                    other => rep.record(ctx, &tagged, &info, &other),
-                }
-            }
-            if rep.violated() {
+            let second: &[&str] = if ctx.tier == Tier::Thorough && si < 3 { &SECOND_ALL } else { &[] };
+            if !enumerate(ctx, rep, &mut d, &format!("generated-{}-{}", kind.name(), si), si, g, ctx.tier.pick(1, 2), second, false) {
                 break 'outer;
             }
         }
     }
-    rep.extra.insert("scenarios".into(), serde_json::json!(scen_meta));
-    rep.extra.insert("kill_point_labels_traced".into(), serde_json::json!(label_hist));
+    rep.extra.insert("scenarios".into(), serde_json::json!(d.scen_meta));
+    rep.extra.insert("kill_point_labels_traced".into(), serde_json::json!(d.label_hist));
     rep.extra.insert("out_of_scope".into(), serde_json::json!("power-loss reordering (un-synced page cache), kills inside a single write call"));
-    rep.exhaustive = Some(all_points && !rep.violated() && rep.dropped.is_empty());
+    rep.exhaustive = Some(d.all_points && !rep.violated() && rep.dropped.is_empty());
     let total: u64 = rep.evaluations;
     let dropped: u64 = rep.dropped.values().sum();
     if total == 0 || dropped * 2 > total {
